@@ -1,5 +1,5 @@
 use crate::{
-    self as simplesl, Error, Interpreter,
+    self as simplesl, Error,
     instruction::{ExecResult, Instruction, InstructionWithStr, unary_operation::UnaryOperation},
     unary_operator::UnaryOperator,
     variable::{ReturnType, Type, Variable},
@@ -33,10 +33,10 @@ pub fn can_be_used(lhs: &Type) -> bool {
     lhs.matches(&ACCEPTED_TYPE)
 }
 
-pub(crate) fn exec(var: Variable, interpreter: &mut Interpreter) -> ExecResult {
+pub(crate) fn exec(var: Variable) -> ExecResult {
     let iter = var.into_function().unwrap();
     let mut vec = Vec::new();
-    while let Variable::Tuple(tuple) = iter.exec(interpreter)? {
+    while let Variable::Tuple(tuple) = iter.exec_with_args(&[])? {
         if tuple[0] == Variable::Bool(false) {
             break;
         };
